@@ -122,18 +122,19 @@ var X *Exec
 
 // Scenario is a closed little program plus its oracle.
 type Scenario struct {
-	Name      string
-	Body      func()                    // the main thread; spawns the others
-	Check     func(r *Result) []Failure // oracle on one finished execution (threads still parked)
-	Invariant func() string             // optional; evaluated at every scheduling step
-	Bound     int                       // deviation bound
-	Delay     bool                      // delay bounding instead of pre-emption bounding
-	TimerDev  bool                      // early timer firing allowed as a deviation (cost 1)
-	MaxSteps  int                       // default 4000
-	NoCache   bool                      // disable the happens-before state cache (self-check)
-	IdleGap   int64                     // ns; quiescent timers further away than this end the run (default 30 min)
-	FirstOnly bool                      // run the default schedule only (very long executions: a smoke run, reported as such)
-	Horizon   int64                     // ns; 0 = none. At quiescence the clock is not advanced beyond this (polling loops never go quiet)
+	Name       string
+	Body       func()                    // the main thread; spawns the others
+	Check      func(r *Result) []Failure // oracle on one finished execution (threads still parked)
+	Invariant  func() string             // optional; evaluated at every scheduling step
+	Bound      int                       // deviation bound
+	Delay      bool                      // delay bounding instead of pre-emption bounding
+	TimerDev   bool                      // early timer firing allowed as a deviation (cost 1)
+	MaxSteps   int                       // default 4000
+	MaxThreads int                       // default 150000: more goroutines than that in one execution is reported as a failure
+	NoCache    bool                      // disable the happens-before state cache (self-check)
+	IdleGap    int64                     // ns; quiescent timers further away than this end the run (default 30 min)
+	FirstOnly  bool                      // run the default schedule only (very long executions: a smoke run, reported as such)
+	Horizon    int64                     // ns; 0 = none. At quiescence the clock is not advanced beyond this (polling loops never go quiet)
 }
 
 // Failure is one violated clause of the oracle.
@@ -447,6 +448,20 @@ func Go(fn func()) {
 	}
 	p := x.cur
 	p.spawns++
+	max := x.sc.MaxThreads
+	if max == 0 {
+		max = 150000
+	}
+	if len(x.threads) >= max {
+		// a goroutine explosion (a pool sized by an unvalidated argument, say) ends the execution with a
+		// failure instead of exhausting the machine's memory
+		if x.invFail == "" {
+			x.invFail = fmt.Sprintf("more than %d goroutines started in one execution (goroutine explosion)", max)
+		}
+		x.signalFinish()
+		<-x.cur.wake
+		runtime.Goexit()
+	}
 	x.newThread(fmt.Sprintf("%s.%d", p.Name, p.spawns), false, fn)
 	x.tracef("go %s.%d", p.Name, p.spawns)
 }
